@@ -4,7 +4,6 @@ live `Struct` objects, the size/magic decisions are tabulated by running the rea
 `_receive_header` on a small grid of headers, the `except` ladder of
 `MessageSession._process_messages_loop` is resolved against the live exception classes."""
 import ast
-import asyncio
 import hashlib
 import re
 import struct
@@ -27,18 +26,19 @@ def _fmt_items(fmt):
 
 
 def _drive(coro):
-    """Run a coroutine that never has to wait (all data already queued)."""
-    loop = asyncio.new_event_loop()
+    """Run a coroutine on the virtual loop; a coroutine that would wait forever is reported as
+    the string 'blocked' (never waits in real time)."""
+    from harness import vloop
     try:
-        return loop.run_until_complete(asyncio.wait_for(coro, 5))
-    finally:
-        loop.close()
+        return vloop.run(coro)
+    except (vloop.Deadlock, vloop.Livelock):
+        return 'blocked'
 
 
 def _header_outcome(framing, mp, mb, header):
-    cls = type('GridFramer', (framing.BitcoinFramer,), {'max_payload_size': mp})
-
+    """0 returned, 1 BadMagicError, 2 OversizedPayloadError, 4 would block, 5 anything else"""
     async def go():
+        cls = type('GridFramer', (framing.BitcoinFramer,), {'max_payload_size': mp})
         fr = cls(magic=GRID_MAGIC, max_block_size=mb)
         fr.received_bytes(header)
         try:
@@ -48,7 +48,11 @@ def _header_outcome(framing, mp, mb, header):
             return 1
         except framing.OversizedPayloadError:
             return 2
-    return _drive(go())
+    try:
+        r = _drive(go())
+    except Exception:
+        return 5
+    return 4 if r == 'blocked' else r
 
 
 def _names(node):
